@@ -36,6 +36,30 @@ META["C01"] = {
     "technique": "static analysis: must-call / dominator / provenance rules over MIR of the driver",
 }
 
+META["C03"] = {
+    "level": "Exhaustive structural rules over all impls of the Core traversal traits (field-level provenance into recursive calls), "
+             "dominator rule for uniquify-before-focus, decision-region enumeration for the Term<Cns> wildcards. Each is a necessary "
+             "condition of C03 whose violation changes behaviour; unit tests exercise single terms only.",
+    "design_ref": "DESIGN.md §3 R-TRAV/R-WIRE/R-SHAPE (+R-FRESH/R-MAXID/R-SHADOW), §4 C03",
+    "note": "Partial: decides traversal completeness, identifier discipline and stage order, not the order of effects nor semantic equivalence.",
+    "technique": "static analysis: per-impl field provenance (MIR), dominators, discriminant decision-region path enumeration",
+}
+META["C05"] = {
+    "level": "Exhaustive structural rules over the AxCut traversal traits, must-dataflow for the free-variable annotations, dominator "
+             "rule free_vars-before-linearize, wildcard reachability for Statement::linearize.",
+    "design_ref": "DESIGN.md §3 R-TRAV/R-ANNOT/R-WIRE/R-SHAPE (+R-KEEP/R-PUSH), §4 C05",
+    "note": "Partial: exactness of environments on every path is not decided.",
+    "technique": "static analysis: field provenance, forward must-dataflow on MIR CFG, dominators",
+}
+META["C12"] = {
+    "level": "Panic-site closure of the post-check pipeline with the annotation and shape classes discharged by checked typestate / "
+             "reachability rules; finite site population enumerated completely from the resolved call graph.",
+    "design_ref": "DESIGN.md §3 R-PANIC/R-ANNOT/R-SHAPE/R-TRAV, §4 C12",
+    "note": "Partial: decides 'no internal failure' up to the audited LOOKUP invariants; does not type-check intermediate programs. "
+            "Known finding: rv64 print_i64 panics.",
+    "technique": "static analysis: call-graph panic inventory + must-dataflow typestate + decision-region enumeration",
+}
+
 NOT_APPLICABLE = {
     "C09": "Run-time heap invariant of *generated* code at every statement boundary of every execution; no path property of the "
            "compiler's source corresponds to it and no sound static argument in reach bounds it (DESIGN.md §4 C09/C10).",
@@ -44,5 +68,5 @@ NOT_APPLICABLE = {
 }
 # properties whose checks are not built yet are listed here until their rules exist (kept current by bin/gen-manifest)
 PENDING = "check not built yet in this round; planned rules are in DESIGN.md §4"
-for _p in ["C02", "C03", "C04", "C05", "C06", "C07", "C08", "C11", "C12", "C13", "C14", "C15", "C16", "C19", "C20"]:
+for _p in ["C02", "C04", "C06", "C07", "C08", "C11", "C13", "C14", "C15", "C16", "C19", "C20"]:
     NOT_APPLICABLE.setdefault(_p, PENDING)
